@@ -9,6 +9,15 @@ TB = ("Lean 4.33.0 kernel (thorough: + leanchecker); axioms ⊆ {propext, Classi
       "check (testing); external crates/kernel/fs as listed in DESIGN.md §5")
 
 CLAIMED = {
+    "C01": dict(
+        text="Lean theorems over the model of handle_new_http_request/authorize for every request, identity, destination, "
+             "rule set/mode/default and attribution state: relayed => attributed, no '..', rules readable, authorizer not "
+             "Forbidden (and, with C02's theorem, => the declared policy authorizes the caller); direct connections are never "
+             "relayed; each refusal yields exactly 404/421/421/500/403 with no upstream request. The model is tied to the real "
+             "ProxyServer (listener, hyper, tower limit layer, actors) running in a private network namespace against "
+             "byte-recording mock metadata hosts; attribution records are injected through hook H1.",
+        design="§7 C01",
+        technique="Lean 4 proof over a hand-written pipeline model + e2e differential correspondence in a netns"),
     "C02": dict(
         text="Lean theorem isAllowed_eq_spec: for every rule document with pairwise-distinct privilege/role/identity names "
              "(dangling names, missing sections, any mode/default strings included), every URL and caller, the model of "
